@@ -45,6 +45,47 @@ func TestConverge(t *testing.T) {
 	sem := make(chan struct{}, in.Width)
 	var slotN int
 	outcomes := make([]*Outcome, len(in.Scenarios))
+	type lateRun struct {
+		i   int
+		sc  Scenario
+		log []string
+	}
+	var late []lateRun
+	report := func(i int, sc Scenario, out *Outcome, retried bool) {
+		outcomes[i] = out
+		res.Eval(sc.Shape + "|" + sc.ID)
+		res.Count("events", out.NEvents)
+		res.Count("blocks", out.Blocks)
+		if retried {
+			res.Count("retried", 1)
+			res.Note("scenario %s (%s) needed a retry", sc.ID, sc.Shape)
+		}
+		if out.Converged {
+			res.Count("converged", 1)
+			res.Count("converge_ms_total", int(out.Ms))
+		}
+		infra := false
+		for _, p := range out.Problems {
+			if len(p.Sig) > 6 && p.Sig[:6] == "infra:" {
+				infra = true
+				res.Note("INFRA %s: %s %s", sc.ID, p.Sig, p.Desc)
+				res.Count("infra", 1)
+				continue
+			}
+			res.Mismatch(p.Sig, fmt.Sprintf("scenario %s: %s", sc.ID, p.Desc), map[string]any{"kind": "converge", "scenario": sc, "log": out.Log, "tips": out.Tips, "heaviest": out.Heaviest})
+		}
+		if !infra && len(out.Events) > 0 {
+			tw := tws[i%shards]
+			// keep one scenario's events contiguous
+			for _, ev := range out.Events {
+				tw.Emit(ev)
+			}
+			res.Traces += len(sc.Nodes)
+		}
+		if i == 0 {
+			res.Sample(map[string]any{"scenario": sc, "heaviest": out.Heaviest, "tips": out.Tips, "ms": out.Ms, "log": out.Log})
+		}
+	}
 	for i, sc := range in.Scenarios {
 		wg.Add(1)
 		sem <- struct{}{}
@@ -69,45 +110,26 @@ func TestConverge(t *testing.T) {
 					os.WriteFile(filepath.Join(dir, "retry-"+sc.ID+".log"), []byte(fmt.Sprintf("%v\n%s\n", first.Problems, strings.Join(first.Log, "\n"))), 0o644)
 				}
 				if hasLive(out) {
-					out.Log = append(append(first.Log, "---- retry ----"), out.Log...)
+					// still failing: one more attempt later, on its own, when the machine is quieter
+					mu.Lock()
+					late = append(late, lateRun{i, sc, append(first.Log, "---- retry ----")})
+					mu.Unlock()
+					return
 				}
 			}
 			mu.Lock()
 			defer mu.Unlock()
-			outcomes[i] = out
-			res.Eval(sc.Shape + "|" + sc.ID)
-			res.Count("events", out.NEvents)
-			res.Count("blocks", out.Blocks)
-			if retried {
-				res.Count("retried", 1)
-				res.Note("scenario %s (%s) needed a retry", sc.ID, sc.Shape)
-			}
-			if out.Converged {
-				res.Count("converged", 1)
-				res.Count("converge_ms_total", int(out.Ms))
-			}
-			infra := false
-			for _, p := range out.Problems {
-				if len(p.Sig) > 6 && p.Sig[:6] == "infra:" {
-					infra = true
-					res.Note("INFRA %s: %s %s", sc.ID, p.Sig, p.Desc)
-					res.Count("infra", 1)
-					continue
-				}
-				res.Mismatch(p.Sig, fmt.Sprintf("scenario %s: %s", sc.ID, p.Desc), map[string]any{"kind": "converge", "scenario": sc, "log": out.Log, "tips": out.Tips, "heaviest": out.Heaviest})
-			}
-			if !infra && len(out.Events) > 0 {
-				tw := tws[i%shards]
-				// keep one scenario's events contiguous
-				for _, ev := range out.Events {
-					tw.Emit(ev)
-				}
-				res.Traces += len(sc.Nodes)
-			}
-			if i == 0 {
-				res.Sample(map[string]any{"scenario": sc, "heaviest": out.Heaviest, "tips": out.Tips, "ms": out.Ms, "log": out.Log})
-			}
+			report(i, sc, out, retried)
 		}(i, sc, slot)
+	}
+	wg.Wait()
+	for _, lr := range late {
+		slotN++
+		out := RunConverge(lr.sc, slotN)
+		if hasLive(out) {
+			out.Log = append(append(lr.log, out.Log...), "---- (third attempt, run alone) ----")
+		}
+		report(lr.i, lr.sc, out, true)
 	}
 	wg.Wait()
 	for _, tw := range tws {
@@ -166,6 +188,64 @@ func TestByz(t *testing.T) {
 	var wg sync.WaitGroup
 	sem := make(chan struct{}, in.Width)
 	var slotN int
+	live := func(o *ByzOutcome) bool {
+		for _, p := range o.Problems {
+			if p.Live {
+				return true
+			}
+		}
+		return false
+	}
+	type lateRun struct {
+		i   int
+		sc  ByzScenario
+		log []string
+	}
+	var late []lateRun
+	report := func(i int, sc ByzScenario, out *ByzOutcome, retried bool) {
+		fmt.Fprintf(journal, "done %s\n", sc.ID)
+		res.Eval(sc.Shape)
+		res.Count("events", out.NEvents)
+		nf := 0
+		for k, n := range out.Fired {
+			res.Count("fired:"+k, n)
+			nf += n
+		}
+		if nf == 0 {
+			res.Count("vacuous", 1)
+			res.Note("scenario %s (%s): no corrupted answer was delivered", sc.ID, sc.Shape)
+		}
+		if retried {
+			res.Count("retried", 1)
+			res.Note("scenario %s (%s) needed a retry", sc.ID, sc.Shape)
+		}
+		if out.Reached {
+			res.Count("reached", 1)
+			res.Count("reach_ms_total", int(out.Ms))
+		}
+		res.Count("bans", len(out.Bans))
+		infra := false
+		for _, p := range out.Problems {
+			if strings.HasPrefix(p.Sig, "infra:") {
+				infra = true
+				res.Note("INFRA %s: %s %s", sc.ID, p.Sig, p.Desc)
+				res.Count("infra", 1)
+				continue
+			}
+			res.Mismatch(p.Sig, fmt.Sprintf("scenario %s (%s): %s", sc.ID, sc.Shape, p.Desc),
+				map[string]any{"kind": "byz", "scenario": sc, "log": out.Log, "tips": out.Tips, "fired": out.Fired, "bans": out.Bans, "served": out.Served})
+		}
+		if !infra && len(out.Events) > 0 {
+			tw := tws[i%shards]
+			for _, ev := range out.Events {
+				tw.Emit(ev)
+			}
+			res.Traces += 1 + max(1, sc.Honest)
+		}
+		if i < 2 {
+			res.Sample(map[string]any{"scenario": sc, "tips": out.Tips, "ms": out.Ms, "fired": out.Fired, "bans": out.Bans, "log": out.Log})
+		}
+	}
 	for i, sc := range in.Scenarios {
 		wg.Add(1)
 		sem <- struct{}{}
@@ -179,14 +259,6 @@ func TestByz(t *testing.T) {
 			defer func() { <-sem }()
 			out := RunByz(sc, slot)
 			retried := false
-			live := func(o *ByzOutcome) bool {
-				for _, p := range o.Problems {
-					if p.Live {
-						return true
-					}
-				}
-				return false
-			}
 			if in.Retry && live(out) {
 				mu.Lock()
 				slotN++
@@ -199,56 +271,27 @@ func TestByz(t *testing.T) {
 					os.WriteFile(filepath.Join(dir, "retry-"+sc.ID+".log"), []byte(fmt.Sprintf("%v\n%s\n", first.Problems, strings.Join(first.Log, "\n"))), 0o644)
 				}
 				if live(out) {
-					out.Log = append(append(first.Log, "---- retry ----"), out.Log...)
+					// still failing: one more attempt later, on its own, when the machine is quieter
+					mu.Lock()
+					late = append(late, lateRun{i, sc, append(first.Log, "---- retry ----")})
+					mu.Unlock()
+					return
 				}
 			}
 			mu.Lock()
 			defer mu.Unlock()
-			fmt.Fprintf(journal, "done %s\n", sc.ID)
-			res.Eval(sc.Shape)
-			res.Count("events", out.NEvents)
-			nf := 0
-			for k, n := range out.Fired {
-				res.Count("fired:"+k, n)
-				nf += n
-			}
-			if nf == 0 {
-				res.Count("vacuous", 1)
-				res.Note("scenario %s (%s): no corrupted answer was delivered", sc.ID, sc.Shape)
-			}
-			if retried {
-				res.Count("retried", 1)
-				res.Note("scenario %s (%s) needed a retry", sc.ID, sc.Shape)
-			}
-			if out.Reached {
-				res.Count("reached", 1)
-				res.Count("reach_ms_total", int(out.Ms))
-			}
-			res.Count("bans", len(out.Bans))
-			infra := false
-			for _, p := range out.Problems {
-				if strings.HasPrefix(p.Sig, "infra:") {
-					infra = true
-					res.Note("INFRA %s: %s %s", sc.ID, p.Sig, p.Desc)
-					res.Count("infra", 1)
-					continue
-				}
-				res.Mismatch(p.Sig, fmt.Sprintf("scenario %s (%s): %s", sc.ID, sc.Shape, p.Desc),
-					map[string]any{"kind": "byz", "scenario": sc, "log": out.Log, "tips": out.Tips, "fired": out.Fired, "bans": out.Bans, "served": out.Served})
-			}
-			if !infra && len(out.Events) > 0 {
-				tw := tws[i%shards]
-				for _, ev := range out.Events {
-					tw.Emit(ev)
-				}
-				res.Traces += 2
-			}
-			if i < 2 {
-				res.Sample(map[string]any{"scenario": sc, "tips": out.Tips, "ms": out.Ms, "fired": out.Fired, "bans": out.Bans, "log": out.Log})
-			}
+			report(i, sc, out, retried)
 		}(i, sc, slot)
 	}
 	wg.Wait()
+	for _, lr := range late {
+		slotN++
+		out := RunByz(lr.sc, slotN)
+		if live(out) {
+			out.Log = append(append(lr.log, out.Log...), "---- (third attempt, run alone) ----")
+		}
+		report(lr.i, lr.sc, out, true)
+	}
 	for _, tw := range tws {
 		if err := tw.Close(); err != nil {
 			t.Fatal(err)
